@@ -52,6 +52,8 @@ class Body:
         if othername:
             self.env[othername] = ('other',)
         self.tmp = 0
+        self.real_names = set()
+        self.allow_muldiv = False
 
     def fresh(self, base):
         self.tmp += 1
@@ -70,6 +72,8 @@ class Body:
         if isinstance(e, ast.Name):
             if e.id in self.env:
                 v = self.env[e.id]
+                if v == ('uopd',): return [], ('ureal', 'AOth')
+                if v == ('numopd',): return [], ('num', 'o')
                 if v == ('other',):
                     if self.kind == 'n': return [], ('num', 'o')
                     if self.kind == 'ur': return [], ('ureal', 'AOth')
@@ -95,6 +99,9 @@ class Body:
                 elif self.kind == 'n':
                     if a == 'real': return p, ('num', '(@PR C (n_real C o))')
                     if a == 'imag': return p, ('num', '(@PR C (n_imag C o))')
+            elif v == ('numopd',):
+                if a == 'real': return p, ('num', '(@PR C (n_real C o))')
+                if a == 'imag': return p, ('num', '(@PR C (n_imag C o))')
             elif v[0] == 'num':
                 if a == 'real': return p, ('num', '(@PR C (n_real C %s))' % v[1])
                 if a == 'imag': return p, ('num', '(@PR C (n_imag C %s))' % v[1])
@@ -124,8 +131,8 @@ class Body:
                     v = self.fresh('p')
                     return p + ['%s <- n_pow C %s %s' % (v, tl, tr)], ('num', v)
                 raise Untranslatable('binary op %s' % type(e.op).__name__)
-            if 'ureal' in (vl[0], vr[0]) and isinstance(e.op, (ast.Add, ast.Sub)):
-                # a call into the uncertain-real kernel: UncertainReal.__add__/__radd__/__sub__/__rsub__
+            if ('ureal' in (vl[0], vr[0]) or vl[0] == 'rexp') and isinstance(e.op, (ast.Add, ast.Sub, ast.Mult, ast.Div)):
+                # a call into the uncertain-real kernel: UncertainReal.__add__/__radd__/__sub__/__rsub__/__mul__/...
                 def arg(v):
                     if v[0] == 'ureal': return v[1]
                     if v[0] == 'num': return '(ANumV (n_real C %s))' % v[1]
@@ -136,7 +143,11 @@ class Body:
                     raise Untranslatable('possibly complex number operand of a real-kernel call')
                 if vr[0] == 'num' and not self.num_is_real(e.right):
                     raise Untranslatable('possibly complex number operand of a real-kernel call')
-                f = 'B_add' if isinstance(e.op, ast.Add) else 'B_sub'
+                f = {ast.Add: 'B_add', ast.Sub: 'B_sub', ast.Mult: 'B_mul', ast.Div: 'B_div'}[type(e.op)]
+                if isinstance(e.op, (ast.Mult, ast.Div)) and not self.allow_muldiv:
+                    raise Untranslatable('* or / of uncertain reals inside an UncertainComplex method')
+                if vl[0] == 'rexp':
+                    return [], ('rexp', '(RNest %s %s %s)' % (f, vl[1], arg(vr)))
                 return [], ('rexp', '(RBin %s %s %s)' % (f, arg(vl), arg(vr)))
             raise Untranslatable('binary op on %s, %s' % (vl[0], vr[0]))
         if isinstance(e, ast.Call):
@@ -169,16 +180,28 @@ class Body:
         raise Untranslatable('expression %s' % type(e).__name__)
 
     def num_is_real(self, e):
-        """syntactically certain to be a float: X.real / X.imag of a number, or the other operand inside
-        an isinstance(.., numbers.Real) branch"""
+        """syntactically certain to be a float"""
+        if isinstance(e, ast.Constant):
+            return isinstance(e.value, (int, float)) and not isinstance(e.value, bool)
         if isinstance(e, ast.Attribute) and e.attr in ('real', 'imag'):
             return True
-        if isinstance(e, ast.Name) and self.env.get(e.id) == ('other',) and getattr(self, 'other_is_real', False):
+        if isinstance(e, ast.Call) and isinstance(e.func, ast.Name) and e.func.id == 'abs':
             return True
+        if isinstance(e, ast.UnaryOp) and isinstance(e.op, (ast.USub, ast.UAdd)):
+            return self.num_is_real(e.operand)
+        if isinstance(e, ast.BinOp) and isinstance(e.op, (ast.Add, ast.Sub, ast.Mult, ast.Div)):
+            return self.num_is_real(e.left) and self.num_is_real(e.right)
+        if isinstance(e, ast.BinOp) and isinstance(e.op, ast.Pow):
+            # abs(z)**2 : a non-negative float to an integer power
+            return (isinstance(e.left, ast.Call) and isinstance(e.left.func, ast.Name) and e.left.func.id == 'abs'
+                    and isinstance(e.right, ast.Constant) and isinstance(e.right.value, int))
+        if isinstance(e, ast.Name):
+            if e.id in self.real_names: return True
+            if self.env.get(e.id) == ('other',) and getattr(self, 'other_is_real', False): return True
         return False
 
     def expr_obj(self, e):
-        if isinstance(e, ast.Name) and e.id in self.env and self.env[e.id] in (('self',), ('other',)):
+        if isinstance(e, ast.Name) and e.id in self.env and self.env[e.id] in (('self',), ('other',), ('numopd',)):
             return [], self.env[e.id]
         return self.expr(e)
 
@@ -217,6 +240,7 @@ class Body:
                 self.env = saved
                 return body
             t = self.fresh(name)
+            if v[0] == 'num' and self.num_is_real(s.value): self.real_names.add(name)
             self.env[name] = (v[0], t)
             body = self.block(rest)
             self.env = saved
@@ -282,6 +306,7 @@ class Body:
                     p, v = self.expr(a)
                     if p: raise Untranslatable('effectful component')
                     if v[0] == 'rexp': return v[1]
+                    if v[0] == 'ureal' and self.kind == 'rc': return '(RArg %s)' % v[1]
                     raise Untranslatable('UncertainComplex component is not a real-kernel call: %s' % v[0])
                 return '(Ok (CPair %s %s))' % (comp(e.args[0]), comp(e.args[1]))
             if isinstance(f, ast.Name) and f.id == 'UncertainReal' and len(e.args) == 4:
@@ -308,6 +333,14 @@ class Body:
                 if a == ('ureal', 'ASelfIm') and b == ('ureal', 'ASelfRe'):
                     return '(Ok CPhase)'
                 raise Untranslatable('_atan2 call shape')
+        if self.kind == 'rc' and isinstance(e, ast.BinOp) and isinstance(e.op, ast.Pow):
+            def plus0j(x, what):
+                return (isinstance(x, ast.BinOp) and isinstance(x.op, ast.Add) and self.is_name(x.left, what)
+                        and isinstance(x.right, ast.Constant) and x.right.value == 0j)
+            if plus0j(e.left, ('uopd',)) and self.is_name(e.right, ('numopd',)):
+                return '(Ok CPromL)'
+            if self.is_name(e.left, ('numopd',)) and plus0j(e.right, ('uopd',)):
+                return '(Ok CPromR)'
         raise Untranslatable('return shape %s' % ast.dump(e)[:80])
 
 
@@ -373,6 +406,35 @@ def compile_binary(fn, gname):
         out['n'] = lambda: mk('n', cplx)
     return out
 
+def compile_real_lib(fn, uname, nname):
+    """the `isinstance(<nname>, numbers.Complex)` branch of lib._add ... lib._rpow (uname: the UncertainReal
+    parameter).  It must come after an isinstance(.., numbers.Real) branch, so the number is a complex."""
+    args = [a.arg for a in fn.args.args]
+    if args != ['lhs', 'rhs']:
+        raise Untranslatable('signature')
+    body = [s for s in fn.body if not (isinstance(s, ast.Expr) and isinstance(s.value, ast.Constant))]
+    if len(body) != 1 or not isinstance(body[0], ast.If):
+        raise Untranslatable('body is not one isinstance chain')
+    node = body[0]; seen = []
+    while True:
+        k = isinstance_test(node.test, nname)
+        if k is None: raise Untranslatable('chain test')
+        if k == 'Complex':
+            if 'Real' not in seen: raise Untranslatable('numbers.Complex branch not preceded by numbers.Real')
+            b = Body('rc', '__no_self__', None)
+            b.env = {uname: ('uopd',), nname: ('numopd',)}
+            b.allow_muldiv = True
+            return b.block(list(node.body))
+        seen.append(k)
+        if len(node.orelse) == 1 and isinstance(node.orelse[0], ast.If):
+            node = node.orelse[0]
+        else:
+            raise Untranslatable('no numbers.Complex branch')
+
+REAL_LIB = [('_add', 'lhs', 'rhs'), ('_radd', 'rhs', 'lhs'), ('_sub', 'lhs', 'rhs'), ('_rsub', 'rhs', 'lhs'),
+            ('_mul', 'lhs', 'rhs'), ('_rmul', 'rhs', 'lhs'), ('_div', 'lhs', 'rhs'), ('_rdiv', 'rhs', 'lhs'),
+            ('_pow', 'lhs', 'rhs'), ('_rpow', 'rhs', 'lhs')]
+
 def compile_unary(fn):
     args = [a.arg for a in fn.args.args]
     if args != ['self']:
@@ -434,6 +496,14 @@ def main(repo, outdir):
         if fn is None:
             out.append('(* ABSENT %s: method not found *)\n' % g); missing.append(g); continue
         emit(g, lambda fn=fn: compile_unary(fn))
+    # the complex-number branches of the module-level uncertain-real operators
+    funs = {n.name: n for n in tree.body if isinstance(n, ast.FunctionDef)}
+    for name, uname, nname in REAL_LIB:
+        g = 'gr_' + name.strip('_') + '_c'
+        fn = funs.get(name)
+        if fn is None:
+            out.append('(* ABSENT %s: function not found *)\n' % g); missing.append(g); continue
+        emit(g, lambda fn=fn, u=uname, n=nname: compile_real_lib(fn, u, n))
     # __truediv__/__rtruediv__ must simply forward
     for a, b in (('__truediv__', '__div__'), ('__rtruediv__', '__rdiv__')):
         fn = methods.get(a)
